@@ -259,7 +259,12 @@ def build_trace(sc: dict, gens: list, ref: Reference):
     evs = []
     orig_cfg = None
     dirs = sc["dirs"]          # {path: 1|2}
-    hadcrash = any(g["killed"] for g in gens)
+    # a process that simply exits while an asynchronous save is still in flight (no wait_until_finished) ends
+    # the writer as abruptly as a kill does
+    for g in gens:
+        names = [e["event"] for e in g["events"]]
+        g["unclean"] = (not g["killed"]) and "save_call" in names and "x_waited" not in names
+    hadcrash = any(g["killed"] or g["unclean"] for g in gens)
     resumed_converged = False
     for gi, g in enumerate(gens):
         events = g["events"]
@@ -354,7 +359,7 @@ def build_trace(sc: dict, gens: list, ref: Reference):
             evs.append(rec)
         if gi < len(gens) - 1 or g["killed"]:
             rec = dict(BLANK)
-            rec["e"], rec["killed"] = "crash", g["killed"]
+            rec["e"], rec["killed"] = "crash", bool(g["killed"] or g.get("unclean"))
             evs.append(rec)
     return {"freq": sc["freq"], "keep": sc["keep"], "isasync": sc["isasync"], "freq0": sc["freq"] == 0,
             "fullconfig": sc["fullconfig"], "expectpolicy": sc["kind"] == "PI", "hadcrash": hadcrash,
@@ -438,6 +443,14 @@ def run_all(scenarios: list, nproc: int | None = None):
     """Run scenarios (and one reference per refkey) in parallel; returns list of (sc, trace)."""
     nproc = nproc or C.NCPU
     out = []
+    # scenario names double as directory names: make them unique (two scenarios drawn with equal parameters
+    # would otherwise share one checkpoint directory and one trace file)
+    seen = {}
+    for sc in scenarios:
+        n = seen.get(sc["name"], 0)
+        seen[sc["name"]] = n + 1
+        if n:
+            sc["name"] = f"{sc['name']}~{n}"
     with C.Scratch("verif-ckpt-") as wd:
         keys = {}
         for sc in scenarios:
